@@ -3,6 +3,7 @@
 R11.1 structure-preserving-map conformance of extend_inner_class_names / contract_inner_class_names
 R11.2 only the chosen namespace slot is written, the first namespace is refused; the recursion of `map`; missing outer class is an error
 R11.3 the inner-class split / join helpers of duke::tree::class::ObjClassName
+R11.4 the two operations and the private functions of their module fail only in the documented ways (no further refusal, no panic)
 """
 import json
 import os
@@ -25,13 +26,20 @@ CLAIM = {
             "parent: from_inner_class(map(parent, get_class_name(parent, ns)?), mapped) else mapped; get_class_name turns a missing "
             "class or name into Err. split_inner_class_parent_and_name cuts at the last `$`, returns (parent, inner) in this order, "
             "guarded by exactly: parent non-empty, inner non-empty, parent does not end with `/`, inner contains no `/`; "
-            "get_inner_class_name / _parent project component 1 / 0; from_inner_class = parent + `$` + inner. Contraction rewrites the slot unconditionally (independent of the source name).",
+            "get_inner_class_name / _parent project component 1 / 0; from_inner_class = parent + `$` + inner. Contraction rewrites the slot unconditionally (independent of the source name). "
+            "(R11.4) In extend_inner_class_names, contract_inner_class_names and every function of their module they (transitively) call, the only "
+            "sources of failure are: get_namespace(..) (unknown namespace name), get_mut_with_src(..) (first namespace), get_class_name(..) (outer "
+            "class not in the set), the missing source name (`<first slot>.context(..)` in the extend per-class function), and propagation of these "
+            "(`?`, collect::<Result<_>>, `Err(e) => return Err(e)`, context / map_err); there is no explicit `Err(..)` / bail!, no other fallible "
+            "call, no Option turned into an error elsewhere, no unwrap / expect / panic.",
     "note": "Known finding (1): contract_inner_class_name does not refuse the first namespace "
             "(fixes/proposed/C11-contract-first-namespace.md). Not decided: the inverse law contract(extend(x)) = x, termination of the recursion on cyclic data, behaviour when the "
             "mapped name already contains `$`. Trusted: rustc HIR/typeck, ADT tables; spec/quill_inner_class_names.json "
             "(transcribed from the property statement, the comment above extend_inner_class_names and the duke doc comments).",
     "technique": "static analysis: structure-preserving-map conformance by normal-form term comparison; single-write / guard "
-                 "dominance on the per-class functions; truth-table equivalence of the split guard",
+                 "dominance on the per-class functions; truth-table equivalence of the split guard; classification of every failure "
+                 "source (fallible calls by resolved callee, error constructors, Option->Result conversions, panics) in the call closure of the "
+                 "two operations inside their module",
 }
 
 
@@ -76,6 +84,7 @@ def run(F, R, tier):
     r11_1(q, R, spec)
     r11_2(q, R, spec)
     r11_3(dk, R, spec)
+    r11_4(q, R, spec)
     return ("result terms of extend/contract_inner_class_names vs. the term generated from the ADT table; single assignment, "
             "copy-of-self and guards of extend_inner_class_name / contract_inner_class_name / get_mut_with_src; normal forms of "
             "`map`, get_class_name; split guard truth table (16 rows), pair order, projections, from_inner_class append order")
@@ -152,6 +161,7 @@ def r11_2(q, R, spec):
     b = roles.get("extend_one", (None, None))[1]
     if R.anchor(rid, "per-class helper of extend_inner_class_names", b) and R.anchor(rid, "extend per-class helper parameters", len(b["params"]) == 3, b["sp"]) \
             and R.anchor(rid, "recursive naming helper called by the extend per-class helper", "map" in roles, b["sp"]):
+        b = U.unqualified(b)             # `Names::get_mut_with_src(&mut names, ns)` is `names.get_mut_with_src(ns)`
         nz = U.Norm(b, se["params"])
         r = _copy_and_single_write(R, rid, "extend", b, nz, se)
         if r:
@@ -162,10 +172,13 @@ def r11_2(q, R, spec):
                    got=U.show(l), detail="the written place is the second component of get_mut_with_src(namespace)")
             R.inst(rid, "extend:value", rr == U.parse(_fill(se["value"], roles), env), sp=a["sp"], expect=U.show(U.parse(_fill(se["value"], roles), env)), got=U.show(rr),
                    detail="map(mappings, namespace, <source name = slot 0>, <current name in the namespace>)")
-            conds = U.cond_terms(nz, b["body"], a)
+            # conditions of the write, whatever their spelling (if let / let-else / match arm); a test whose failing side is an error exit
+            # (`let Some(src) = src else { bail!(..) }`) does not decide *whether a successful call writes*: R11.4 accounts for refusals
+            conds = [c for c, alts in U.cond_terms_ex(nz, b["body"], a) if not (alts and all(H.is_err_exit(x) for x in alts))]
             want_c = U.parse(se["condition"], env)
-            R.inst(rid, "extend:only-when-named", conds in ([("iflet", want_c, True)], [("letelse", want_c, True)]), sp=a["sp"],
-                   expect="if let (src, Some(b)) = names.get_mut_with_src(namespace)?", got=U.show_conds(conds))
+            R.inst(rid, "extend:only-when-named", len(conds) == 1 and conds[0][0] == "is" and conds[0][2] == want_c and "Some" in conds[0][1]
+                   and "None" not in conds[0][1], sp=a["sp"],
+                   expect="if let (src, Some(b)) = names.get_mut_with_src(namespace)?", got=U.show_conds_ex(conds))
     # ---- get_mut_with_src
     sg = spec["get_mut_with_src"]
     b = q.fn("get_mut_with_src")
@@ -188,6 +201,7 @@ def r11_2(q, R, spec):
     sc = spec["contract_one"]
     b = roles.get("contract_one", (None, None))[1]
     if R.anchor(rid, "per-class helper of contract_inner_class_names", b) and R.anchor(rid, "contract per-class helper parameters", len(b["params"]) == 2, b["sp"]):
+        b = U.unqualified(b)
         nz = U.Norm(b, sc["params"])
         r = _copy_and_single_write(R, rid, "contract", b, nz, sc)
         if r:
@@ -294,6 +308,7 @@ def r11_3(dk, R, spec):
     sf = spec["from_inner_class"]
     b = dk.fn("from_inner_class")
     if R.anchor(rid, "fn ObjClassName::from_inner_class", b) and R.anchor(rid, "from_inner_class parameters", len(b["params"]) == 2, b["sp"]):
+        b = U.unqualified(b)             # `JavaString::push_java_str(&mut s, x)` is `s.push_java_str(x)`
         nz = U.Norm(b, sf["params"])
         env = U.build_env(sf["params"])
         res = U.result_term(nz)
@@ -309,6 +324,188 @@ def r11_3(dk, R, spec):
             ok = init == U.parse(sf["starts_as"], env) and seq == want and all(c == [] for c in conds)
         R.inst(rid, "from_inner_class:join-order", ok, sp=b["sp"], expect=[sf["starts_as"]] + sf["appends"], got=got)
     R.floor(rid, 5)
+
+
+# ------------------------------------------------------------------------------------ R11.4
+PANICKING = ("core::panicking::", "std::rt::begin_panic", "std::panicking::", "core::option::expect_failed", "core::result::unwrap_failed")
+UNWRAPS = {"unwrap", "expect", "unwrap_err", "expect_err", "unwrap_unchecked"}
+OPTION_TO_ERROR = {"context", "with_context", "ok_or", "ok_or_else"}
+
+
+def _module_closure(q, entries):
+    """the entry points and, transitively, every function of their module that they call: {key: body}"""
+    out = {}
+    todo = list(entries)
+    while todo:
+        b = todo.pop()
+        if b["key"] in out:
+            continue
+        out[b["key"]] = b
+        todo.extend(cb for cb in _module_callees(q, b).values())
+    return out
+
+
+def _err_pattern_bindings(root):
+    """ids of locals bound inside an `Err(..)` pattern (match arm / if let / let-else): the error of the scrutinee, handed on"""
+    ids = set()
+
+    def rec(p, inside):
+        if not isinstance(p, dict):
+            return
+        k = p.get("k")
+        if k == "bind":
+            if inside:
+                ids.add(p["id"])
+            if "sub" in p:
+                rec(p["sub"], inside)
+        elif k == "ptuplestruct":
+            here = inside or (p["res"].get("variant") == "Err")
+            for x in p["pats"]:
+                rec(x, here)
+        elif k == "pstruct":
+            for f in p["fields"]:
+                rec(f["pat"], inside)
+        elif k in ("ptuple", "por"):
+            for x in p["pats"]:
+                rec(x, inside)
+        elif k in ("pref", "pbox", "pderef", "pguard"):
+            rec(p["pat"], inside)
+    for n in H.walk(root):
+        if n.get("k") == "match":
+            for a in n["arms"]:
+                rec(a["pat"], False)
+        elif n.get("k") in ("letexpr", "let"):
+            rec(n["pat"], False)
+    return ids
+
+
+def _passes_on(e, err_ids):
+    """`e` is the error bound by an `Err(..)` pattern, possibly converted / decorated (`e.into()`, `From::from(e)`, `e.context(..)`)"""
+    e = H.peel(e)
+    while e.get("k") in ("mcall", "call") and U.Norm.call_name(e) in ("into", "from", "context", "with_context") and H.call_args(e):
+        e = H.peel(H.call_args(e)[0])
+    l = H.local_of(e)
+    return bool(l) and l[0] in err_ids
+
+
+def _failure_alternative(root, node):
+    """The innermost pattern test whose *failure side* contains `node`: the non-Ok/Some arm of a `match`, the else branch of
+    `if let Ok(..) / Some(..) = e`, the else block of `let Ok(..) / Some(..) = e else { .. }` -> the tested expression e, or None."""
+    chain = (H.parents_of(root, node) or []) + [node]
+    found = None
+    for i, p in enumerate(chain[:-1]):
+        nxt = chain[i + 1]
+        k = p.get("k")
+        if k == "match":
+            for a in p["arms"]:
+                if a["body"] is nxt and not U._success_pat(a["pat"]) and any(U._success_pat(x["pat"]) for x in p["arms"]):
+                    found = p["scrut"]
+        elif k == "if" and p.get("else") is nxt:
+            c = H.peel(p["cond"], refs=False)
+            if c.get("k") == "letexpr" and U._success_pat(c["pat"]):
+                found = c["init"]
+        elif k == "let" and p.get("els") is nxt and U._success_pat(p["pat"]):
+            found = p["init"]
+    return found
+
+
+def r11_4(q, R, spec):
+    rid = "R11.4"
+    R.rule(rid, "extend_inner_class_names / contract_inner_class_names and the private functions of their module have no way to fail other than "
+                "the documented ones: an unknown namespace name (get_namespace), the first namespace (get_mut_with_src), an outer class that is "
+                "not in the set (get_class_name), a class without a source name; everything else is propagation (`?`, collect, Err(e) => Err(e)); "
+                "no explicit error, no panic")
+    sr = spec["refusals"]
+    entries = [q.fn(fn, impl_ty="quill::tree::mappings::Mappings") for fn in ("extend_inner_class_names", "contract_inner_class_names")]
+    if not R.anchor(rid, "fn Mappings::extend_inner_class_names / contract_inner_class_names", all(entries)):
+        return
+    S = _module_closure(q, entries)
+    roles = _roles(q, R, rid)
+    role_of = {b["key"]: r for r, (_n, b) in roles.items()}
+    label = {"extend_one": "extend-per-class", "contract_one": "contract-per-class", "map": "outer-class-naming"}
+    allowed = sr["allowed_calls"]
+    adaptors = set(sr["propagating_adaptors"])
+    for key in sorted(S):
+        b = S[key]
+        b = U.unqualified(b)
+        root = b["body"]
+        err_ids = _err_pattern_bindings(root)
+        bad = []
+        role = role_of.get(key)
+        nz = None
+
+        def source_name(e):
+            """`e` is the class's name in the first namespace (first component of get_mut_with_src) in the extend per-class function"""
+            nonlocal nz
+            ms = sr["missing_source_name"]
+            if role != ms["role"]:
+                return False
+            se = spec[role]
+            if nz is None:
+                nz = U.Norm(b, se["params"])
+            res = U.result_term(nz)
+            if res and res[0] == "case" and res[2]:
+                alts = set(a for _p, a in res[2])
+                res = next(iter(alts)) if len(alts) == 1 else res
+            if not (res and res[0] == "local"):
+                return False
+            env = U.build_env(se["params"], se["let"], extra={"names": res})
+            return nz.term(e) == U.parse(ms["receiver"], env)
+
+        def replaces_documented_failure(n):
+            """the explicit error stands where the failure of a Result (judged at the call that produced it) or of the missing source
+            name is handled: `match f() { Ok(v) => v, Err(_) => bail!(..) }`, `let Some(src) = src else { bail!(..) }`"""
+            e = _failure_alternative(root, n)
+            if e is None:
+                return False
+            ty = (e.get("ty") or "").lstrip("&")
+            if ty.startswith("core::result::Result<"):
+                return True
+            return ty.startswith("core::option::Option<") and source_name(e)
+
+        for n in H.walk(root):
+            k = n.get("k")
+            if k in ("call", "mcall"):
+                c = n.get("callee") or {}
+                name = U.Norm.call_name(n)
+                ctor = H.ctor_of(n) if k == "call" else None
+                path = c.get("inst") or c.get("path") or ""
+                if ctor:
+                    if ctor[1] == "Err" and (ctor[0] or "").endswith("Result") and not (n["args"] and _passes_on(n["args"][0], err_ids)) \
+                            and not replaces_documented_failure(n):
+                        bad.append(("explicit error", n))
+                    continue
+                if path.startswith(PANICKING):
+                    bad.append(("panic", n))
+                    continue
+                if k == "mcall" and name in UNWRAPS and U.is_option_like(n["recv"]):
+                    bad.append(("panic: .%s()" % name, n))
+                    continue
+                recv_ty = (n["recv"].get("ty") or "").lstrip("&") if k == "mcall" else ""
+                if k == "mcall" and name in OPTION_TO_ERROR and recv_ty.startswith("core::option::Option<"):
+                    # None becomes an error here: only the documented one (the class has no name in the first namespace)
+                    if not source_name(n["recv"]):
+                        bad.append(("`None` turned into an error: .%s(..) on %s" % (name, H.render(n["recv"])[:60]), n))
+                    continue
+                if not (n.get("ty") or "").startswith("core::result::Result<"):
+                    continue
+                ck = c.get("inst_key") or c.get("key")
+                if ck in S:
+                    continue                                    # the module's own functions: judged here themselves
+                if name in allowed and (ck in q.by_key):
+                    continue                                    # a documented refusal
+                if name in adaptors:
+                    continue                                    # hands on / decorates the errors of its receiver or closure
+                bad.append(("fallible call outside the documented refusals: %s" % name, n))
+            elif k == "path" and (H.ctor_of(n) or (None, None))[1] == "Err":
+                bad.append(("`Err` used as a function value", n))
+        what = label.get(role) or b.get("name") or key.rsplit("::", 1)[-1]
+        R.inst(rid, "no-other-refusal:%s" % what, not bad, sp=(bad[0][1].get("sp") if bad else b["sp"]),
+               expect="only: " + "; ".join("%s (%s)" % kv for kv in sorted(allowed.items())) + "; missing source name; propagation",
+               got=["%s: %s" % (w, H.render(n)[:100]) for w, n in bad],
+               detail="a refusal that the property does not name turns a mapping set that must be extended / contracted into an error "
+                      "(e.g. contraction of two nested classes with the same simple name)")
+    R.floor(rid, 2)
 
 
 def _rename(f, atoms):
